@@ -109,9 +109,9 @@ def boot_side(ctx):
         if ctx.quick else \
         [(wk, n, k) for wk in ("sync", "gthread", "gevent", "eventlet") for n in names for k in (1, 2)]
     import signal as _signal
-    plan += [("sync", "@statsd-tags", _signal.SIGKILL), ("gthread", "@statsd-prefix", _signal.SIGSEGV), ("sync", "@plain", _signal.SIGABRT)] \
+    plan += [("sync", "@statsd-tags", _signal.SIGKILL), ("gthread", "@statsd-prefix", _signal.SIGHUP), ("sync", "@plain", _signal.SIGABRT)] \
         if ctx.quick else \
-        [(wk, "@" + d, sg) for wk in ("sync", "gthread", "gevent") for d in DEPLOY for sg in (_signal.SIGKILL, _signal.SIGSEGV)]
+        [(wk, "@" + d, sg) for wk in ("sync", "gthread", "gevent") for d in DEPLOY for sg in (_signal.SIGKILL, _signal.SIGHUP)]
 
     def one(a):
         return run_death(a[0], a[1][1:], a[2]) if a[1].startswith("@") else run_boot(a[0], a[1], a[2])
